@@ -112,6 +112,21 @@ def items_rules(ctx, I):
                            'the next word must be searched exactly where the previous match ended')
             prev = 'M:REGEX_PARAMETER_OR_STR(PARAMS,%s)' % ','.join(repr(o.p) for o in offs if isinstance(o, Num))
             tags.append(prev)
+        # completeness: every word the regex matched with a letter (group 1 present) is yielded - none is skipped
+        yielded = set()
+        for el in v.elems:
+            if isinstance(el, TupleV) and len(el.elems) == 2:
+                for n in live_alts(s, el.elems[0]):
+                    mm = re.match(r"upper\((M:REGEX_PARAMETER_OR_STR\(.*\))\.g1\)$", getattr(n, 'tag', ''))
+                    if mm:
+                        yielded.add(mm.group(1))
+        for t in tags:
+            if s.dom.get(('nogroup', t, ('guard', 0))) == frozenset([False]) and t not in yielded:
+                ctx.report('C19.R3', 'GcodeParser.parameterItems', 'a matched word is not yielded',
+                           'on some path the tokeniser matches a word with a letter and no item is produced for it (skipped, '
+                           'merged with an earlier one, ...): the handlers never see that word, so the last value given for the '
+                           'letter is not the one they act on')
+                break
         # yielded pairs, in match order
         k = 0
         for el in v.elems:
